@@ -17,7 +17,6 @@ CONSTANTS
   ShutdownMode = "any"
   Dev = {}
 SPECIFICATION Spec
-VIEW MCView
 INVARIANTS TypeOK
 PROPERTY ShutdownEndsRun
 CHECK_DEADLOCK FALSE
